@@ -44,12 +44,73 @@ static int mode_residual(int cases, int max_nr, int max_nt)
     return 0;
 }
 
+// ---------------------------------------------------------------------------------------------- transfer
+// every transfer entry point on harness-built level pairs: both splits, non-uniform spacing, 1 and 4 threads
+static int mode_transfer(int cases, int max_nr, int max_nt)
+{
+    Rng rng(seed_from_env());
+    for (int c = 0; c < cases; c++) {
+        int nr = pick_nr(rng, max_nr), nt = pick_nt(rng, max_nt);
+        if (nr < 9) nr = 9;
+        if (nt < 8) nt = 8;
+        Problem p = make_problem(rng, nr, nt);
+        std::optional<double> split = rng.coin(0.4) ? std::optional<double>(rng.uniform(p.R0 * 0.5, p.Rmax * 1.1)) : std::nullopt;
+        Chain ch = make_chain(p, 2, true, true, split);
+        if (ch.levels.size() < 2) continue;
+        const Level& fine = *ch.levels[0];
+        const Level& coarse = *ch.levels[1];
+        const PolarGrid& gf = fine.grid();
+        const PolarGrid& gc = coarse.grid();
+        printf("PAIR nrF=%d ntF=%d ncF=%d ncC=%d radiiF=%s anglesF=%s radiiC=%s anglesC=%s\n", gf.nr(), gf.ntheta(), gf.numberSmootherCircles(), gc.numberSmootherCircles(),
+               hexvec(gf.radii()).c_str(), hexvec(gf.angles()).c_str(), hexvec(gc.radii()).c_str(), hexvec(gc.angles()).c_str());
+        for (int threads : {1, 4}) {
+            std::vector<int> tpl = {threads, threads};
+            Interpolation I(tpl, p.dirbc);
+            std::vector<double> xc = random_field(rng, gc.numberOfNodes()), yf = random_field(rng, gf.numberOfNodes());
+            Vector<double> xcv = from_rowmajor(gc, xc), yfv = from_rowmajor(gf, yf);
+            auto up = [&](const char* name, auto fn) {
+                Vector<double> out(gf.numberOfNodes());
+                fn(out);
+                printf("TR op=%s threads=%d x=%s out=%s\n", name, threads, hexvec(xc).c_str(), hexvec(to_rowmajor(gf, out)).c_str());
+            };
+            auto down = [&](const char* name, auto fn) {
+                Vector<double> out(gc.numberOfNodes());
+                fn(out);
+                printf("TR op=%s threads=%d x=%s out=%s\n", name, threads, hexvec(yf).c_str(), hexvec(to_rowmajor(gc, out)).c_str());
+            };
+            if (threads == 1) {
+                // linear reproduction probes: x = r and x = theta at the coarse nodes
+                std::vector<double> xr(gc.numberOfNodes()), xt(gc.numberOfNodes());
+                for (int i = 0; i < gc.nr(); i++) for (int j = 0; j < gc.ntheta(); j++) { xr[(size_t)i * gc.ntheta() + j] = gc.radius(i); xt[(size_t)i * gc.ntheta() + j] = gc.theta(j); }
+                Vector<double> o1(gf.numberOfNodes()), o2(gf.numberOfNodes());
+                I.applyProlongation(coarse, fine, o1, from_rowmajor(gc, xr));
+                I.applyProlongation(coarse, fine, o2, from_rowmajor(gc, xt));
+                printf("TR op=prolong kind=linear_r threads=1 x=%s out=%s\n", hexvec(xr).c_str(), hexvec(to_rowmajor(gf, o1)).c_str());
+                printf("TR op=prolong kind=linear_t threads=1 x=%s out=%s\n", hexvec(xt).c_str(), hexvec(to_rowmajor(gf, o2)).c_str());
+            }
+            up("prolong", [&](Vector<double>& o) { I.applyProlongation(coarse, fine, o, xcv); });
+            up("prolong0", [&](Vector<double>& o) { I.applyProlongation0(coarse, fine, o, xcv); });
+            up("exprolong", [&](Vector<double>& o) { I.applyExtrapolatedProlongation(coarse, fine, o, xcv); });
+            up("exprolong0", [&](Vector<double>& o) { I.applyExtrapolatedProlongation0(coarse, fine, o, xcv); });
+            up("fmg", [&](Vector<double>& o) { I.applyFMGInterpolation(coarse, fine, o, xcv); });
+            down("restrict", [&](Vector<double>& o) { I.applyRestriction(fine, coarse, o, yfv); });
+            down("restrict0", [&](Vector<double>& o) { I.applyRestriction0(fine, coarse, o, yfv); });
+            down("exrestrict", [&](Vector<double>& o) { I.applyExtrapolatedRestriction(fine, coarse, o, yfv); });
+            down("exrestrict0", [&](Vector<double>& o) { I.applyExtrapolatedRestriction0(fine, coarse, o, yfv); });
+            down("inject", [&](Vector<double>& o) { I.applyInjection(fine, coarse, o, yfv); });
+        }
+    }
+    printf("end\n");
+    return 0;
+}
+
 int main(int argc, char** argv)
 {
     std::string mode = argc > 1 ? argv[1] : "";
     printf("seed %llu\n", (unsigned long long)seed_from_env());
     int a = argc > 2 ? atoi(argv[2]) : 20, b = argc > 3 ? atoi(argv[3]) : 17, c = argc > 4 ? atoi(argv[4]) : 32;
     if (mode == "residual") return mode_residual(a, b, c);
+    if (mode == "transfer") return mode_transfer(a, b, c);
     fprintf(stderr, "usage: h_ops residual ...\n");
     return 2;
 }
